@@ -23,8 +23,8 @@ PROP = {'lean_props': ['Comrak.Props.C16'],
  'trusted_base': ["clap's own parsing beyond the fragment modelled in parseArgs (long/short names, --name=value, -e a,b, repeated -e, --, "
                   'duplicate and conflict rejection), shell_words::split (the harness writes config files in five quoting styles and tells '
                   'the model the intended words; a wrong split shows as a correspondence disagreement), and syntect are trusted libraries',
-                  'the harness links comrak without syntect: runs with the highlighter on use documents without code blocks (checked on '
-                  'the parsed tree), where the adapter is never called; highlighted output itself is not compared',
+                  'the harness links comrak with its syntect feature: with the highlighter on, the expected HTML is the library\'s with a '
+                  'SyntectAdapter of the same theme (half of those runs keep their code blocks, top-level and nested); syntect itself is trusted',
                   'the library side of the model (Lib.render / Lib.validUtf8) is abstract in Lean and instantiated by in-process calls of '
                   'the real library in the harness',
                   'cargo (the harness shells out to `cargo build --offline --bin comrak` in /repo, target dir /verif/work/cli-target) and '
